@@ -196,7 +196,7 @@ def main(argv=None):
     # ---- native: replay of counterexamples + random cross-check of the contracts on the real code
     replay_jobs = []
     for i, o in enumerate(undis):
-        if o.get("model") and o["_res"] is not None:
+        if o.get("model") and o["_res"] is not None and not str(o["_res"].get("file", "")).startswith("@"):
             replay_jobs.append(model_to_job(o["_res"], o, f"replay{i}"))
             o["_replay_id"] = f"replay{i}"
     rnd = random.Random(seed)
